@@ -340,7 +340,7 @@ func checkParseXor(c *core.Ctx, l *core.Ledger) {
 			if !ok || core.FieldOf(fa) == nil {
 				return
 			}
-			switch core.FieldOf(fa).Name() {
+			switch core.FieldName(core.FieldOf(fa)) {
 			case "parseFailed":
 				k, isK := st.Val.(*ssa.Const)
 				if isK && core.Sym(k) == "c:false" {
@@ -352,7 +352,7 @@ func checkParseXor(c *core.Ctx, l *core.Ledger) {
 				app := false
 				for _, bi := range in.Block().Instrs {
 					if s2, ok := bi.(*ssa.Store); ok {
-						if fa2, ok := s2.Addr.(*ssa.FieldAddr); ok && core.FieldOf(fa2) != nil && core.FieldOf(fa2).Name() == "errors" && strings.HasPrefix(core.Sym(s2.Val), "append(") {
+						if fa2, ok := s2.Addr.(*ssa.FieldAddr); ok && core.FieldOf(fa2) != nil && core.FieldName(core.FieldOf(fa2)) == "errors" && strings.HasPrefix(core.Sym(s2.Val), "append(") {
 							app = true
 						}
 					}
